@@ -5,7 +5,7 @@
        state-table refine the requirement and that Hess, Antisymmetry, ActDifference,
        DetailedBalance, KeqActRatio, RouteIsolation and CallerUntouched hold
        (MC_Reaction.cfg: all reactions, MC_Reaction_route.cfg: all caller dictionaries).
-(S->C) TLC emits 7 443 (reaction, caller dictionary) cases with the exact value of every state and
+(S->C) TLC emits 8 472 (reaction, caller dictionary) cases with the exact value of every state and
        change for integer stand-in species; they are replayed into real Reaction /
        ChemkinReaction / SurfaceReaction objects built from recording stand-in species:
        returned values and the keywords each species received must EQUAL what TLC computed.
@@ -25,15 +25,28 @@ SUM_Q = ['Cv', 'Cp', 'U', 'H', 'S', 'F', 'G', 'E']
 DIMLESS = {'Cv': 'CvoR', 'Cp': 'CpoR', 'U': 'UoRT', 'H': 'HoRT', 'S': 'SoR', 'F': 'FoRT',
            'G': 'GoRT', 'E': 'EoRT', 'q': 'q'}
 NEEDS_T = ('U', 'H', 'F', 'G', 'E')            # dimensional getters with an explicit T parameter
-ENERGY_UNITS = ['J/mol', 'kJ/mol', 'kcal/mol', 'eV']
+# every key of pmutt.constants.R with '/K' stripped (the dimensional wrappers build '<units>/K')
+ENERGY_UNITS = ['J/mol', 'kJ/mol', 'L kPa/mol', 'cm3 kPa/mol', 'm3 Pa/mol', 'cm3 MPa/mol', 'm3 bar/mol',
+                'L bar/mol', 'L torr/mol', 'cal/mol', 'kcal/mol', 'L atm/mol', 'cm3 atm/mol', 'eV', 'Eh', 'Ha']
 STATE_ALIASES = {'r': ['reactants', 'Reactants', 'REACTANTS'],
                  'p': ['products', 'Products'],
                  't': ['transition state', 'transition_state', 'ts', 'TS', 'Transition State']}
 CLASSES = ['Reaction', 'ChemkinReaction', 'SurfaceReaction']
 COMBOS = [(False, False), (False, True), (True, False), (True, True)]     # Idx(rev, act) - 1
 REAL_NAMES = ['H2', 'H2O', 'H2O2', 'O2', 'CO', 'CO2', 'C', 'OH', 'H', 'CH3OH', 'CH3', 'N2', 'NH3',
-              'M(S)', 'H(S)', 'CO(S)', 'H2O(S)', 'A_B', 'a', 'ab']
+              'M(S)', 'H(S)', 'CO(S)', 'H2O(S)', 'A_B', 'a', 'ab', 'O', 'Hs', 'CO_k', 'args', 'k', 'w_', 'H2_',
+              's', 'kwargs', 'CH3-CH2(S)']
+# groups whose members are prefixes / suffixes of each other, or end in a character of '_kwargs'
+NAME_GROUPS = [['H', 'H2', 'H2O', 'H2O2', 'H2_'], ['O', 'O2', 'CO2', 'CO', 'H2O'], ['s', 'Hs', 'args', 'kwargs'],
+               ['a', 'ab', 'A_B', 'w_', 'k', 'CO_k'], ['H(S)', 'CO(S)', 'H2O(S)', 'M(S)', 'CH3-CH2(S)']]
 TS_NAMES = ['TS1', 'H2O_TS', 'TS', 'CO-H(S)']
+KW_CHARS = set('_kwargs')
+# alphabets for the stand-in names A, AB, B, D, Z (A a prefix and B a suffix of AB are preserved)
+SPY_ALPHABETS = [{'A': 'A', 'AB': 'AB', 'B': 'B', 'D': 'D', 'Z': 'Z'},
+                 {'A': 'H2', 'AB': 'H2O', 'B': 'O', 'D': 'TS_k', 'Z': 'w'},
+                 {'A': 'a_', 'AB': 'a_s', 'B': 's', 'D': 'rg(S)', 'Z': '_'}]
+SPECIES_DELIMS = ['+', ' + ', '&', ' ; ']
+REACTION_DELIMS = ['=', ' = ', '<=>', '=>', '->', ' <--> ']
 QUARTERS = [0.25, 0.5, 0.75, 1.0, 1.0, 1.0, 1.5, 2.0, 2.0, 2.5, 3.0, 4.0]
 
 
@@ -46,6 +59,23 @@ def fdec(x):
     if math.isnan(x) or math.isinf(x):
         raise NonFinite()
     return to_dec(x)
+
+
+def num_form(rnd, x, forms=None):
+    """the same number as float / int / numpy scalar -> (value, name of the form)"""
+    import numpy as np
+    if forms is None:
+        forms = ['float', 'float', 'np.float64'] + (['int', 'np.int64'] if float(x).is_integer() else [])
+    f = rnd.choice(forms)
+    return {'float': float, 'np.float64': np.float64, 'int': lambda v: int(round(v)),
+            'np.int64': lambda v: np.int64(round(v))}[f](x), f
+
+
+def flag_form(rnd, b):
+    """rev / act as bool, int or numpy bool"""
+    import numpy as np
+    f = rnd.choice(['bool', 'bool', 'int', 'np.bool_'])
+    return {'bool': bool(b), 'int': int(b), 'np.bool_': np.bool_(b)}[f], f
 
 
 # --------------------------------------------------------------------------------------
@@ -144,19 +174,65 @@ def make_species(rnd, name, kind):
     raise core.MachineryError('unknown species kind %r' % kind)
 
 
-def make_reaction(cls, reactants, rs, products, ps, ts, tss):
+def _cls(cls):
     from pmutt.reaction import Reaction, ChemkinReaction
     from pmutt.omkm.reaction import SurfaceReaction
-    kw = dict(reactants=list(reactants), reactants_stoich=list(rs), products=list(products),
-              products_stoich=list(ps))
+    return {'Reaction': Reaction, 'ChemkinReaction': ChemkinReaction, 'SurfaceReaction': SurfaceReaction}[cls]
+
+
+def _container(form, items, numeric):
+    import numpy as np
+    if form == 'tuple':
+        return tuple(items)
+    if form == 'ndarray' and numeric:
+        return np.array(items)
+    # a bare species / coefficient instead of a one-element list (_check_iterable_attr wraps it); a Nasa9 is
+    # itself iterable (over its SingleNasa9 segments) and cannot be told from a list: always in a list
+    if form == 'single' and len(items) == 1 and not hasattr(items[0], '__iter__'):
+        return items[0]
+    return list(items)
+
+
+def make_reaction(cls, reactants, rs, products, ps, ts, tss, forms=None):
+    """forms: {'r': f, 'p': f, 't': f} with f in list | tuple | ndarray (coefficients only) | single
+    (one species given without a container)"""
+    forms = forms or {}
+    kw = dict(reactants=_container(forms.get('r'), list(reactants), False),
+              reactants_stoich=_container(forms.get('r'), list(rs), True),
+              products=_container(forms.get('p'), list(products), False),
+              products_stoich=_container(forms.get('p'), list(ps), True))
     if ts:
-        kw['transition_state'] = list(ts)
-        kw['transition_state_stoich'] = list(tss)
-    if cls == 'Reaction':
-        return Reaction(**kw)
-    if cls == 'ChemkinReaction':
-        return ChemkinReaction(**kw)
-    return SurfaceReaction(**kw)
+        kw['transition_state'] = _container(forms.get('t'), list(ts), False)
+        kw['transition_state_stoich'] = _container(forms.get('t'), list(tss), True)
+    return _cls(cls)(**kw)
+
+
+def reaction_string(sides, sdel, rdel, rnd):
+    """text of the reaction for from_string: coefficient immediately (or after a space) before the name,
+    a coefficient of 1 sometimes left out"""
+    def side(lst):
+        parts = []
+        for sp, nu in lst:
+            if float(nu) == 1.0 and rnd.random() < 0.5:
+                parts.append(sp.name)
+            else:
+                txt = repr(float(nu)) if rnd.random() < 0.6 or not float(nu).is_integer() else str(int(nu))
+                parts.append(txt + (' ' if rnd.random() < 0.3 else '') + sp.name)
+        return sdel.join(parts)
+    states = [side(sides['r'])] + ([side(sides['t'])] if sides['t'] else []) + [side(sides['p'])]
+    return rdel.join(states)
+
+
+def string_safe(sides, sdel, rdel):
+    names = [sp.name for s in sides for sp, _ in sides[s]]
+    for s in sides:                                   # from_string merges a species repeated on one side
+        ns = [sp.name for sp, _ in sides[s]]
+        if len(set(ns)) != len(ns):
+            return False
+    for n in names:
+        if n[0].isdigit() or n[0] == '.' or sdel.strip() in n or rdel.strip() in n or n != n.strip():
+            return False
+    return sdel.strip() not in rdel and rdel.strip() not in sdel
 
 
 # --------------------------------------------------------------------------------------
@@ -190,13 +266,18 @@ class Recorder(object):
         self.hasTS = bool(sides['t'])
         self.cache = {}
         self.block_of = {'%s_kwargs' % n: b for n, b in blocks}
+        self.cov = set()
+
+    def flag(self, b, what):
+        v, f = flag_form(self.rnd, b)
+        self.cov.add('%s given as %s' % (what, f))
+        return v
 
     def species_value(self, sp, meth, conds, opts):
         from pmutt.reaction.bep import BEP
-        key = (id(sp), meth, tuple(sorted(conds.items())), tuple(sorted(opts.items())))
+        key = (id(sp), meth, tuple(sorted((k, repr(v)) for k, v in conds.items())))
         if key not in self.cache:
             args = dict(conds)
-            args.update(opts)
             if isinstance(sp, BEP):
                 args['reaction'] = self.rxn
             self.cache[key] = float(getattr(sp, meth)(**args))
@@ -205,11 +286,20 @@ class Recorder(object):
     def sp_side(self, side, meth, opts, n4):
         out = []
         for sp, nu in self.sides[side]:
-            vals = [self.species_value(sp, meth, self.glob, opts)]
+            base = dict(self.glob)
+            base.update(opts)                 # options of the call are ordinary keywords ...
+            vals = [self.species_value(sp, meth, base, {})]
             for bk in self.bkeys:
-                conds = dict(self.glob)
-                conds.update(self.block_of[bk])
-                vals.append(self.species_value(sp, meth, conds, opts))
+                conds = dict(base)
+                conds.update(self.block_of[bk])   # ... that a block overrides
+                try:
+                    vals.append(self.species_value(sp, meth, conds, {}))
+                except Exception:
+                    # an option meant for another species may be meaningless for this one (include_ZPE for a
+                    # species without vibrations); the candidate then stands for "same as without the block"
+                    if bk == '%s_kwargs' % sp.name:
+                        raise
+                    vals.append(vals[0])
             rec = {'n': sp.name, 'nu': fdec(nu), 'v': [fdec(v) for v in vals]}
             if n4:
                 rec['n4'] = int(round(4 * nu))
@@ -217,7 +307,9 @@ class Recorder(object):
         return out
 
     def alias(self, s):
-        return self.rnd.choice(STATE_ALIASES[s])
+        a = self.rnd.choice(STATE_ALIASES[s])
+        self.cov.add('state name %r' % a)
+        return a
 
     def quant(self, q, dim=None, via='named', opts=None, with_sp=True, kw=None):
         """one 'quant' event; dim = units string for the dimensional getters"""
@@ -246,18 +338,21 @@ class Recorder(object):
                 name = 'get_%s_state' % (q if dim is not None else dl_name)
                 st[s] = fdec(getattr(rxn, name)(state=self.alias(s), **extra, **kw))
         dl = []
-        full = {'r': 'reactants', 'p': 'products', 't': 'transition state'}
         for rev, act in COMBOS:
             if act and not self.hasTS:
                 dl.append(zero)
             elif via == 'generic':
                 ini = 'p' if rev else 'r'
                 fin = 't' if act else ('r' if rev else 'p')
-                dl.append(fdec(rxn.get_delta_quantity(initial_state=full[ini], final_state=full[fin],
+                a_ini, a_fin = self.alias(ini), self.alias(fin)
+                self.cov.add('get_delta_quantity state name %r' % a_ini)
+                self.cov.add('get_delta_quantity state name %r' % a_fin)
+                dl.append(fdec(rxn.get_delta_quantity(initial_state=a_ini, final_state=a_fin,
                                                       method_name=meth, **extra, **kw)))
             else:
                 name = 'get_delta_%s' % (q if dim is not None else dl_name)
-                dl.append(fdec(getattr(rxn, name)(rev=rev, act=act, **extra, **kw)))
+                dl.append(fdec(getattr(rxn, name)(rev=self.flag(rev, 'rev'), act=self.flag(act, 'act'),
+                                                  **extra, **kw)))
         # activation getters: the base class for everything except the Arrhenius energy; on
         # ChemkinReaction / SurfaceReaction the clamped H and G barriers belong to C09
         has_act = (self.hasTS and via == 'named' and q != 'E'
@@ -265,14 +360,14 @@ class Recorder(object):
         e['hasAct'] = has_act
         if has_act:
             name = 'get_%s_act' % (q if dim is not None else dl_name)
-            e['act'] = [fdec(getattr(rxn, name)(rev=rev, **extra, **kw)) for rev in (False, True)]
+            e['act'] = [fdec(getattr(rxn, name)(rev=self.flag(rev, 'rev'), **extra, **kw)) for rev in (False, True)]
         if q == 'G' and dim is None and via == 'named':
             keq, ex, kfin = [], [], []
             for i, (rev, act) in enumerate(COMBOS):
                 if act and not self.hasTS:
                     keq.append(zero), ex.append(zero), kfin.append(False)
                     continue
-                k = float(rxn.get_Keq(rev=rev, act=act, **kw))
+                k = float(rxn.get_Keq(rev=self.flag(rev, 'rev'), act=self.flag(act, 'act'), **kw))
                 dg = float(getattr(rxn, 'get_delta_GoRT')(rev=rev, act=act, **kw))
                 try:
                     x = math.exp(-dg)
@@ -286,6 +381,15 @@ class Recorder(object):
             e.update({'hasK': True, 'keq': keq, 'ex': ex, 'kfin': kfin})
         e['ka'] = snapshot(kw)
         e['st'], e['dl'] = st, dl
+        fam = ('get_X_state, get_delta_X' if dim is not None else 'get_XoRT_state, get_delta_XoRT') \
+            if via == 'named' else 'get_state_quantity, get_delta_quantity'
+        self.cov.add('%s | %s | %s' % (fam, q, self.cls))
+        if has_act:
+            self.cov.add('%s | %s | %s' % ('get_X_act' if dim is not None else 'get_XoRT_act', q, self.cls))
+        if dim is not None:
+            self.cov.add('units %s' % dim)
+        if 'include_ZPE' in opts:
+            self.cov.add('include_ZPE=%s | %s%s' % (bool(opts['include_ZPE']), q, ' (units)' if dim is not None else ''))
         # --- species' own values (every candidate keyword set)
         e['hasSp'] = bool(with_sp and dim is None and kw is self.kw)
         if e['hasSp']:
@@ -388,29 +492,44 @@ def exec_spy(case):
     cls = CLASSES[(case['cseed'] // 3) % 3]
     log = []
     objs = {}
+    cov = set()
+    alpha = SPY_ALPHABETS[(case['cseed'] // 9) % len(SPY_ALPHABETS)]
+    cov.add('stand-in alphabet %s' % '/'.join(alpha[k] for k in ('A', 'AB', 'B', 'D', 'Z')))
 
     def obj(n):
-        name = ''.join(n)
+        name = alpha[''.join(n)]
         if name not in objs:
-            objs[name] = flavour(name, SPY_BASE[name], log)
+            objs[name] = flavour(name, SPY_BASE[''.join(n)], log)
         return objs[name]
-    sides = {s: [(obj(x['n']), x['c'] / 4.0) for x in case[s]] for s in ('r', 'p', 't')}
+
+    def coef(c):                         # 1 and 2 also as int / numpy scalars (exact either way)
+        v, f = num_form(rnd, c / 4.0)
+        cov.add('coefficient given as %s' % f)
+        return v
+    sides = {s: [(obj(x['n']), coef(x['c'])) for x in case[s]] for s in ('r', 'p', 't')}
+    forms = {s: rnd.choice(['list', 'list', 'tuple', 'ndarray', 'single']) for s in ('r', 'p', 't')}
+    for s in ('r', 'p', 't'):
+        if sides[s]:
+            cov.add('containers given as %s' % (forms[s] if forms[s] != 'single' or len(sides[s]) == 1 else 'list'))
     rxn = make_reaction(cls, [a for a, _ in sides['r']], [b for _, b in sides['r']],
                         [a for a, _ in sides['p']], [b for _, b in sides['p']],
-                        [a for a, _ in sides['t']], [b for _, b in sides['t']])
-    glob = {'T': float(case['globT'])}
+                        [a for a, _ in sides['t']], [b for _, b in sides['t']], forms)
+    gT, f = num_form(rnd, case['globT'])
+    cov.add('T given as %s' % f)
+    glob = {'T': gT}
     if case['globP']:
-        glob['P'] = float(case['globP'])
+        glob['P'], f = num_form(rnd, case['globP'])
+        cov.add('P given as %s' % f)
     blocks = []
     for b in case['blocks']:
         d = {}
         if b['T']:
-            d['T'] = float(b['T'])
+            d['T'] = num_form(rnd, b['T'])[0]
         if b['P']:
-            d['P'] = float(b['P'])
-        blocks.append((''.join(b['n']), d))
+            d['P'] = num_form(rnd, b['P'])[0]
+        blocks.append((alpha[''.join(b['n'])], d))
     kw, bkeys = build_kwargs(glob, blocks, rnd)
-    before = json.dumps(kw, sort_keys=True)
+    before = snapshot(kw)
     mism = []
     q = SUM_Q[case['cseed'] % len(SUM_Q)]
     dl_name = DIMLESS[q]
@@ -440,7 +559,7 @@ def exec_spy(case):
             mism.append({'what': 'refusal', 'q': q, 'getter': 'get_delta_%s(rev=%s, act=True)' % (dl_name, rev),
                          'expected': 'raises', 'got': repr(v)})
     # keywords every species received
-    want = {''.join(r['n']): r for r in case['route']}
+    want = {alpha[''.join(r['n'])]: r for r in case['route']}
     for name, meth, got in log:
         r = want[name]
         if q == 'E':                     # get_EoRT_state always forwards include_ZPE (documented parameter)
@@ -457,11 +576,14 @@ def exec_spy(case):
                          'got': {k: (v if isinstance(v, (int, float, str, bool)) else repr(v))
                                  for k, v in got.items()}})
             break
-    if json.dumps(kw, sort_keys=True) != before:
-        mism.append({'what': 'kwargs', 'before': before, 'after': json.dumps(kw, sort_keys=True, default=repr)})
+    if snapshot(kw) != before:
+        mism.append({'what': 'kwargs', 'before': before, 'after': snapshot(kw)})
     # the same object judged by the trace specification
     rec = Recorder(rxn, cls, sides, glob, blocks, kw, bkeys, rnd)
-    events = [rec.quant(q), rec.quant('q')]
+    events = [rec.quant(q), rec.quant('q'),
+              rec.quant(q, dim=ENERGY_UNITS[(case['cseed'] // 7) % len(ENERGY_UNITS)])]
+    if case['cseed'] % 5 == 0:
+        events.append(rec.quant(q, via='generic'))
     if not case['hasTS']:
         events.append(rec.refuse(q))
         if case['cseed'] % 4 == 0:
@@ -471,7 +593,7 @@ def exec_spy(case):
         k = rnd.choice(hit)
         side = rnd.choice([s for s in sides if any(k == '%s_kwargs' % sp.name for sp, _ in sides[s])])
         events.append(rec.iso(q, side, k))
-    return events, mism, {'cls': cls, 'flavour': flavour.__name__, 'q': q}
+    return events, mism, {'cls': cls, 'flavour': flavour.__name__, 'q': q, 'cov': sorted(cov | rec.cov)}
 
 
 # --------------------------------------------------------------------------------------
@@ -486,10 +608,21 @@ def exec_real(case):
     kinds = {'statmech': ['gas', 'gas', 'ads', 'ads', 'const'],
              'mixed': ['gas', 'ads', 'const', 'nasa', 'nasa9', 'shomate'],
              'empirical': ['nasa', 'nasa', 'nasa9', 'shomate']}[mix]
+    cov = set()
     nR, nP = rnd.randint(1, 4), rnd.randint(1, 4)
     nT = rnd.choice([0, 0, 1, 1, 2])
     quarter = rnd.random() < 0.7
-    names = rnd.sample(REAL_NAMES, nR + nP)
+    # names: half of the time start from a group of names that are prefixes / suffixes of each other or end in
+    # a character of '_kwargs'
+    if rnd.random() < 0.5:
+        grp = list(rnd.choice(NAME_GROUPS))
+        rnd.shuffle(grp)
+        rest = [n for n in REAL_NAMES if n not in grp]
+        rnd.shuffle(rest)
+        names = (grp + rest)[:nR + nP]
+        rnd.shuffle(names)
+    else:
+        names = rnd.sample(REAL_NAMES, nR + nP)
     pool = {}
 
     def species(name, kind=None):
@@ -498,14 +631,21 @@ def exec_real(case):
         return pool[name]
 
     def coef():
-        return rnd.choice(QUARTERS) if quarter else rnd.choice([rnd.uniform(0.25, 4.0), 1.0, 1.0 / 3.0, 0.7])
+        x = rnd.choice(QUARTERS) if quarter else rnd.choice([rnd.uniform(0.25, 4.0), 1.0, 1.0 / 3.0, 0.7, 0.25, 4.0])
+        v, f = num_form(rnd, x)
+        cov.add('coefficient given as %s' % f)
+        cov.add('coefficient ' + ('= 0.25' if x == 0.25 else '= 4' if x == 4.0 else '> 1' if x > 1 else
+                                  'fractional < 1' if x < 1 else '= 1'))
+        return v
     R = [(species(n), coef()) for n in names[:nR]]
     P = [(species(n), coef()) for n in names[nR:]]
     shape = rnd.random()
     if shape < 0.15:                        # a species on both sides (catalyst / spectator)
         P[rnd.randrange(len(P))] = (R[0][0], coef())
-    elif shape < 0.22 and len(R) > 1:       # the same species listed twice on one side
+        cov.add('the same species on both sides')
+    elif shape < 0.25 and len(R) > 1:       # the same species listed twice on one side
         R[1] = (R[0][0], coef())
+        cov.add('a species listed twice on one side')
     T = []
     use_bep = False
     for j in range(nT):
@@ -518,30 +658,91 @@ def exec_real(case):
             T.append((OmkmBEP(**args) if cls == 'SurfaceReaction' and rnd.random() < 0.5 else BEP(**args), 1.0))
         elif j == 1 and rnd.random() < 0.3:  # a reactant also sits in the transition state
             T.append((R[0][0], coef()))
+            cov.add('a reactant also in the transition state')
         else:
             T.append((species(TS_NAMES[j]), coef()))
     sides = {'r': R, 'p': P, 't': T}
-    rxn = make_reaction(cls, [a for a, _ in R], [b for _, b in R], [a for a, _ in P], [b for _, b in P],
-                        [a for a, _ in T], [b for _, b in T])
-    # conditions
-    glob = {'T': math.exp(rnd.uniform(math.log(250.), math.log(1800.)))}
+    cov.add('reactants: %d' % len(R)), cov.add('products: %d' % len(P)), cov.add('TS species: %d' % len(T))
+    fams = {('StatMech' if k.__class__.__name__ == 'StatMech' else k.__class__.__name__)
+            for s_ in sides for k, _ in sides[s_]} - {'BEP'}
+    if len(fams) >= 3:
+        cov.add('>= 3 species families in one reaction | ' + cls)
+    if fams == {'StatMech', 'Nasa', 'Nasa9', 'Shomate'}:
+        cov.add('all 4 species families in one reaction')
+    # construction: constructor with lists / tuples / arrays / a bare species, or from_string
+    sdel, rdel = rnd.choice(SPECIES_DELIMS), rnd.choice(REACTION_DELIMS)
+    if rnd.random() < 0.4 and string_safe(sides, sdel, rdel):
+        text = reaction_string(sides, sdel, rdel, rnd)
+        objs = {sp.name: sp for s_ in sides for sp, _ in sides[s_]}
+        sp_arg = objs if rnd.random() < 0.5 else list(objs.values())
+        rxn = _cls(cls).from_string(text, sp_arg, species_delimiter=sdel, reaction_delimiter=rdel)
+        cov.add('from_string | ' + cls)
+        cov.add('from_string species_delimiter %r' % sdel), cov.add('from_string reaction_delimiter %r' % rdel)
+        cov.add('from_string species given as %s' % type(sp_arg).__name__)
+        construction = {'how': 'from_string', 'text': text, 'species_delimiter': sdel, 'reaction_delimiter': rdel}
+    else:
+        forms = {s_: rnd.choice(['list', 'list', 'tuple', 'ndarray', 'single']) for s_ in ('r', 'p', 't')}
+        for s_ in ('r', 'p', 't'):
+            if sides[s_]:
+                cov.add('containers given as %s' % (forms[s_] if forms[s_] != 'single' or len(sides[s_]) == 1
+                                                    else 'list'))
+        rxn = make_reaction(cls, [a for a, _ in R], [b for _, b in R], [a for a, _ in P], [b for _, b in P],
+                            [a for a, _ in T], [b for _, b in T], forms)
+        construction = {'how': 'constructor', 'forms': forms}
+    # conditions: T, P as float / int / numpy scalars; ordinary values and the special ones (default
+    # temperature, exactly on the bounds of the polynomial species, round numbers)
+    if rnd.random() < 0.55:
+        Tv, f = num_form(rnd, math.exp(rnd.uniform(math.log(150.), math.log(3000.))))
+    else:
+        Tv, f = num_form(rnd, rnd.choice([298.15, 100.0, 5000.0, 1000.0, 500.0, 1500.0, 300.0]))
+        cov.add('T = %s' % (('298.15' if Tv == 298.15 else 'on a bound of the polynomials' if Tv in (100, 5000)
+                             else 'round number')))
+    cov.add('T given as %s' % f)
+    glob = {'T': Tv}
     if rnd.random() < 0.7:
-        glob['P'] = math.exp(rnd.uniform(math.log(0.01), math.log(100.)))
-    present = [sp.name for s in sides for sp, _ in sides[s]]
+        if rnd.random() < 0.6:
+            glob['P'], f = num_form(rnd, math.exp(rnd.uniform(math.log(0.01), math.log(100.))))
+        else:
+            glob['P'], f = num_form(rnd, rnd.choice([1.0, 1.0, 0.001, 1000.0, 10.0]))
+        cov.add('P given as %s' % f)
+    else:
+        cov.add('P left to the species default')
+    present = [sp.name for s_ in sides for sp, _ in sides[s_]]
     blocks = []
     cand = list(dict.fromkeys(present))
     rnd.shuffle(cand)
+    # prefer a name that is a proper prefix / suffix of another species of the reaction, or ends in a
+    # character of '_kwargs'
+    tricky = [n for n in cand if any(m != n and (m.startswith(n) or m.endswith(n)) for m in cand)
+              or n[-1] in KW_CHARS]
+    if tricky and rnd.random() < 0.7:
+        cand = [tricky[0]] + [n for n in cand if n != tricky[0]]
+    objs_by_name = {sp.name: sp for s_ in sides for sp, _ in sides[s_]}
     for n in cand[:rnd.choice([0, 1, 1, 2, 3])]:
         b = {}
         form = rnd.choice(['T', 'P', 'TP', 'e'])
         if 'T' in form:
-            b['T'] = math.exp(rnd.uniform(math.log(250.), math.log(1800.)))
+            b['T'] = num_form(rnd, math.exp(rnd.uniform(math.log(150.), math.log(3000.))))[0]
         if 'P' in form:
-            b['P'] = math.exp(rnd.uniform(math.log(0.01), math.log(100.)))
+            b['P'] = num_form(rnd, math.exp(rnd.uniform(math.log(0.01), math.log(100.))))[0]
+        if (mix == 'statmech' and not use_bep and rnd.random() < 0.3
+                and getattr(objs_by_name[n], 'vib_model', None).__class__.__name__ == 'HarmonicVib'):
+            b['include_ZPE'] = rnd.random() < 0.5      # an option addressed to one species
+            cov.add('block carries include_ZPE')
+        cov.add('block contents {%s}' % ','.join(sorted(k for k in b if k != 'include_ZPE')))
+        if any(m != n and m.startswith(n) for m in present):
+            cov.add('block for a name that is a prefix of another species | ' + cls)
+        if any(m != n and m.endswith(n) for m in present):
+            cov.add('block for a name that is a suffix of another species | ' + cls)
+        if n[-1] in KW_CHARS:
+            cov.add('block for a name ending in a character of _kwargs | ' + cls)
         blocks.append((n, b))
     if rnd.random() < 0.3:                  # a block for a species that is not in the reaction
-        blocks.append((rnd.choice([n for n in REAL_NAMES if n not in present]),
-                       {'T': rnd.uniform(250., 1800.), 'P': rnd.uniform(0.01, 100.)}))
+        absent = [n for n in REAL_NAMES if n not in present]
+        near = [n for n in absent if any(m.startswith(n) or m.endswith(n) or n.startswith(m) or n.endswith(m)
+                                         for m in present)]
+        blocks.append((rnd.choice(near or absent), {'T': rnd.uniform(250., 1800.), 'P': rnd.uniform(0.01, 100.)}))
+        cov.add('block for a species that is not in the reaction')
     kw, bkeys = build_kwargs(glob, blocks, rnd)
     rec = Recorder(rxn, cls, sides, glob, blocks, kw, bkeys, rnd)
     if use_bep:
@@ -556,7 +757,8 @@ def exec_real(case):
     # no transition state: the Gibbs family (get_delta_GoRT / get_delta_G / get_Keq) always, two more at random
     refuse_q = set(['G'] + rnd.sample(qs, min(2, len(qs)))) if not T else set()
     info = {'cls': cls, 'mix': mix, 'n': [len(R), len(P), len(T)], 'bep': use_bep, 'quarter': quarter,
-            'blocks': [n for n, _ in blocks], 'T': glob['T'], 'P': glob.get('P')}
+            'blocks': [n for n, _ in blocks], 'T': repr(glob['T']), 'P': repr(glob.get('P')),
+            'construction': construction, 'names': present}
 
     def emit(fn, tag):
         try:
@@ -577,7 +779,7 @@ def exec_real(case):
         if q in refuse_q:
             emit(lambda: rec.refuse(q, opts=opts), q + '/refuse')
         if q != 'q' and rnd.random() < 0.35:
-            emit(lambda: rec.quant(q, dim=rnd.choice(ENERGY_UNITS),
+            emit(lambda: rec.quant(q, dim=ENERGY_UNITS[(case['cseed'] + len(events)) % len(ENERGY_UNITS)],
                                    opts=({'include_ZPE': opts['include_ZPE']} if q == 'E' else {})), q + '/dim')
     hit = [k for k in bkeys if any(k == '%s_kwargs' % sp.name for s in sides for sp, _ in sides[s])]
     for k in hit[:2]:
@@ -586,7 +788,112 @@ def exec_real(case):
         opts = {'include_ZPE': False} if q in ('q', 'E') else {}
         emit(lambda: rec.iso(q, side, k, opts=opts), q + '/iso')
     info['skipped_nonfinite'] = skipped
+    info['cov'] = sorted(cov | rec.cov)
     return events, [], info
+
+
+# --------------------------------------------------------------------------------------
+# Hess cycles: members held in a Reactions container, scaled and reversed, closed or with a net reaction
+# --------------------------------------------------------------------------------------
+def exec_cycle(case):
+    from pmutt.reaction import Reactions
+    rnd = random.Random(case['cseed'])
+    n, closed = case['n'], case['closed']
+    cov = set()
+    classes = [rnd.choice(CLASSES) for _ in range(n + 1)]
+    if rnd.random() < 0.4:
+        classes = [case['cls']] * (n + 1)
+    emp = 'ChemkinReaction' in classes
+    kinds = ['nasa', 'nasa9', 'shomate'] if emp else rnd.choice([['gas', 'ads', 'const'],
+                                                                 ['gas', 'ads', 'nasa', 'nasa9', 'shomate']])
+    statmech = not emp and 'nasa' not in kinds
+    names = rnd.sample(REAL_NAMES, n + 2)
+    X = [make_species(rnd, names[i], rnd.choice(kinds)) for i in range(n + 1)]
+    if closed:
+        X[n] = X[0]
+    spect = make_species(rnd, names[n + 1], rnd.choice(kinds))
+    alpha = [rnd.choice([0.5, 1.0, 2.0]) for _ in range(n + 1)]
+    if closed:
+        alpha[n] = alpha[0]
+    members, m, flip = [], [], []
+    for i in range(n):
+        c = rnd.choice([0.5, 1.0, 1.0, 2.0])
+        if c != 1.0:
+            cov.add('cycle: scaled member')
+        Rs, Ps = [(X[i], c * alpha[i])], [(X[i + 1], c * alpha[i + 1])]
+        if rnd.random() < 0.3:                       # a spectator on both sides cancels
+            a = rnd.choice([0.25, 1.0, 2.0])
+            Rs.append((spect, a)), Ps.append((spect, a))
+            cov.add('cycle: spectator in a member')
+        mode = rnd.choice(['fwd', 'fwd', 'written reversed, rev=True', 'written reversed, m<0'])
+        if mode != 'fwd':
+            Rs, Ps = Ps, Rs
+            cov.add('cycle: ' + mode)
+        members.append(make_reaction(classes[i], [a for a, _ in Rs], [b for _, b in Rs],
+                                     [a for a, _ in Ps], [b for _, b in Ps], [], []))
+        flip.append(mode == 'written reversed, rev=True')
+        m.append((-1.0 if mode == 'written reversed, m<0' else 1.0) / c)
+    net = None
+    if not closed:
+        net = make_reaction(classes[n], [X[0]], [alpha[0]], [X[n]], [alpha[n]], [], [])
+    box = Reactions(reactions=members + ([net] if net is not None else []))
+    mism = []
+    if len(box) != n + (0 if closed else 1) or any(a is not box[i] for i, a in enumerate(box)):
+        mism.append({'what': 'container', 'detail': 'len / iteration / indexing disagree'})
+    got_names = set(box.get_species(key='name').keys())
+    want_names = {sp.name for r in box for sp in list(r.reactants) + list(r.products)}
+    if got_names != want_names:
+        mism.append({'what': 'container', 'detail': 'get_species', 'got': sorted(got_names), 'want': sorted(want_names)})
+    Tv, f = num_form(rnd, rnd.choice([298.15, 500.0, math.exp(rnd.uniform(math.log(150.), math.log(3000.)))]))
+    glob = {'T': Tv, 'P': math.exp(rnd.uniform(math.log(0.01), math.log(100.)))}
+    blocks = [(X[rnd.randrange(n)].name, {'P': rnd.uniform(0.01, 100.)})] if rnd.random() < 0.5 else []
+    kw, bkeys = build_kwargs(glob, blocks, rnd)
+    order = {nm_: j for j, nm_ in enumerate(list(dict.fromkeys([sp.name for sp in X] + [spect.name])))}
+
+    def vec(r):
+        v = [0.0] * len(order)
+        for sp, nu in zip(r.reactants, r.reactants_stoich):
+            v[order[sp.name]] -= float(nu)
+        for sp, nu in zip(r.products, r.products_stoich):
+            v[order[sp.name]] += float(nu)
+        return [to_dec(x) for x in v]
+    qs = SUM_Q if statmech else ['Cp', 'H', 'S', 'G']
+    events = []
+    zero = [0, 0]
+    for q in qs:
+        dim = ENERGY_UNITS[(case['cseed'] + len(events)) % len(ENERGY_UNITS)] if rnd.random() < 0.3 else None
+        extra = {}
+        if dim is not None:
+            extra['units'] = dim + ('/K' if q in ('Cv', 'Cp', 'S') else '')
+        if q == 'E':
+            extra['include_ZPE'] = False
+        nm = q if dim is not None else DIMLESS[q]
+        e = {'ev': 'cycle', 'cls': '+'.join(sorted(set(classes[:len(box)]))), 'q': q, 'dim': dim is not None,
+             'closed': closed, 'kb': snapshot(kw)}
+        try:
+            e['m'] = [to_dec(x) for x in m]
+            e['d'] = [fdec(getattr(box[i], 'get_delta_' + nm)(rev=flip[i], **extra, **kw)) for i in range(n)]
+            e['sr'] = [fdec(getattr(box[i], 'get_%s_state' % nm)(state='reactants', **extra, **kw)) for i in range(n)]
+            e['sp'] = [fdec(getattr(box[i], 'get_%s_state' % nm)(state='products', **extra, **kw)) for i in range(n)]
+            e['vec'] = [vec(box[i]) if not flip[i] else [[-a, b] for a, b in vec(box[i])] for i in range(n)]
+            if closed:
+                e['net'], e['nr'], e['np'], e['netvec'] = zero, zero, zero, [zero] * len(order)
+            else:
+                e['net'] = fdec(getattr(box[n], 'get_delta_' + nm)(**extra, **kw))
+                e['nr'] = fdec(getattr(box[n], 'get_%s_state' % nm)(state='reactants', **extra, **kw))
+                e['np'] = fdec(getattr(box[n], 'get_%s_state' % nm)(state='products', **extra, **kw))
+                e['netvec'] = vec(box[n])
+        except NonFinite:
+            continue
+        e['ka'] = snapshot(kw)
+        events.append(e)
+    cov.add('cycle: %d members' % n)
+    cov.add('cycle: closed' if closed else 'cycle: with a net reaction')
+    for c in set(classes[:len(box)]):
+        cov.add('cycle: member of class ' + c)
+    info = {'cls': '+'.join(sorted(set(classes[:len(box)]))), 'n': n, 'closed': closed, 'm': m, 'names': names,
+            'cov': sorted(cov)}
+    return events, mism, info
 
 
 def _cpu():
@@ -599,6 +906,8 @@ def execute(case):
     try:
         if case['kind'] == 'spy':
             return exec_spy(case)
+        if case['kind'] == 'cycle':
+            return exec_cycle(case)
         return exec_real(case)
     except core.MachineryError:
         raise
@@ -618,6 +927,10 @@ def _exercise(ev, counts):
         counts[k] = counts.get(k, 0) + 1
     if ev['ev'] == 'iso':
         inc('RouteIsolation')
+        return
+    if ev['ev'] == 'cycle':
+        k = 'HessCycle | %s' % ('closed' if ev['closed'] else 'net reaction')
+        counts[k] = counts.get(k, 0) + 1
         return
     if ev['ev'] == 'refuse':
         for f in ev['fam']:
@@ -666,7 +979,49 @@ def _needed():
     return need
 
 
+def _needed_cov():
+    need = ['stand-in alphabet %s' % '/'.join(a[k] for k in ('A', 'AB', 'B', 'D', 'Z')) for a in SPY_ALPHABETS]
+    need += ['coefficient given as ' + f for f in ('float', 'int', 'np.int64', 'np.float64')]
+    need += ['containers given as ' + f for f in ('list', 'tuple', 'ndarray', 'single')]
+    need += ['T given as ' + f for f in ('float', 'int', 'np.int64', 'np.float64')]
+    need += ['P given as ' + f for f in ('float', 'int', 'np.int64', 'np.float64')] + ['P left to the species default']
+    need += ['T = 298.15', 'T = on a bound of the polynomials', 'T = round number']
+    need += ['coefficient ' + c for c in ('= 0.25', '= 4', '> 1', 'fractional < 1', '= 1')]
+    need += ['the same species on both sides', 'a species listed twice on one side',
+             'a reactant also in the transition state']
+    need += ['reactants: %d' % i for i in range(1, 5)] + ['products: %d' % i for i in range(1, 5)]
+    need += ['TS species: %d' % i for i in range(3)]
+    need += ['>= 3 species families in one reaction | ' + c for c in CLASSES] + ['all 4 species families in one reaction']
+    need += ['from_string | ' + c for c in CLASSES]
+    need += ['from_string species_delimiter %r' % d for d in SPECIES_DELIMS]
+    need += ['from_string reaction_delimiter %r' % d for d in REACTION_DELIMS]
+    need += ['from_string species given as dict', 'from_string species given as list']
+    need += ['units ' + u for u in ENERGY_UNITS]
+    need += ['include_ZPE=%s | %s' % (b, q) for b in (True, False) for q in ('q', 'E', 'E (units)')]
+    need += ['block carries include_ZPE', 'block for a species that is not in the reaction']
+    need += ['block contents {%s}' % c for c in ('', 'T', 'P', 'P,T')]
+    need += ['block for a name that is a %s of another species | %s' % (w, c) for w in ('prefix', 'suffix') for c in CLASSES]
+    need += ['block for a name ending in a character of _kwargs | ' + c for c in CLASSES]
+    need += ['%s given as %s' % (w, f) for w in ('rev', 'act') for f in ('bool', 'int', 'np.bool_')]
+    for names in STATE_ALIASES.values():
+        need += ['state name %r' % a for a in names] + ['get_delta_quantity state name %r' % a for a in names]
+    for c in CLASSES:
+        for q in SUM_Q:
+            need += ['%s | %s | %s' % (f, q, c) for f in ('get_XoRT_state, get_delta_XoRT', 'get_X_state, get_delta_X',
+                                                          'get_state_quantity, get_delta_quantity')]
+            if q != 'E' and not (c != 'Reaction' and q in ('H', 'G')):
+                need += ['get_XoRT_act | %s | %s' % (q, c), 'get_X_act | %s | %s' % (q, c)]
+        need += ['get_XoRT_state, get_delta_XoRT | q | ' + c, 'get_XoRT_act | q | ' + c]
+    need += ['cycle: %d members' % i for i in range(2, 6)]
+    need += ['cycle: closed', 'cycle: with a net reaction', 'cycle: scaled member', 'cycle: spectator in a member',
+             'cycle: written reversed, rev=True', 'cycle: written reversed, m<0']
+    need += ['cycle: member of class ' + c for c in CLASSES]
+    return need
+
+
 def _signature(case, info):
+    if case['kind'] == 'cycle':
+        return ['cycle', info.get('cls'), info.get('n'), info.get('closed')]
     if case['kind'] == 'spy':
         return ['spy', info.get('cls'), info.get('flavour'), info.get('q'), len(case['r']), len(case['p']),
                 len(case['t']), [[b['n'], bool(b['T']), bool(b['P'])] for b in case['blocks']], case['globP']]
@@ -691,9 +1046,9 @@ def run(ctx):
     else:
         import concurrent.futures as cf
         t0, c0 = time.time(), _cpu()
-        variants = (('alias', 'CallerUntouched'), ('prefix', None), ('actswap', None),
+        variants = (('alias', 'CallerUntouched'), ('prefix', None), ('suffix', None), ('actswap', None),
                     ('actfallback', 'ActDifference'))
-        with cf.ThreadPoolExecutor(max_workers=7) as ex:
+        with cf.ThreadPoolExecutor(max_workers=8) as ex:
             f_route = ex.submit(ctx.model, 'MC_Reaction', ctx.pick('MC_Reaction_route', 'MC_Reaction_route_full'), 6)
             f_alg = ex.submit(ctx.model, 'MC_Reaction', ctx.pick('MC_Reaction', 'MC_Reaction_full'), 8)
             f_var = [ex.submit(ctx.model, 'MC_Reaction', 'MC_Reaction_' + v, 1, False) for v, _ in variants]
@@ -718,24 +1073,32 @@ def run(ctx):
             cls = CLASSES[i % 3]
             mix = 'empirical' if cls == 'ChemkinReaction' else ['statmech', 'mixed', 'empirical', 'statmech'][(i // 3) % 4]
             cases.append({'kind': 'real', 'cls': cls, 'mix': mix, 'cseed': rnd.randrange(1 << 30)})
+        for i in range(ctx.pick(160, 2400)):
+            cases.append({'kind': 'cycle', 'n': 2 + i % 4, 'closed': (i // 4) % 2 == 0, 'cls': CLASSES[i % 3],
+                          'cseed': rnd.randrange(1 << 30)})
     t0, c0 = time.time(), _cpu()
     results = core.pmap(execute, cases)
     ctx.coverage.setdefault('phase_wall_s', {})['library_runs'] = round(time.time() - t0, 1)
     ctx.coverage.setdefault('phase_cpu_s', {})['library_runs'] = round(_cpu() - c0, 1)
     traces = []
     exercise = {}
+    covered = {}
     skipped = 0
     for tid, (case, (events, mism, info)) in enumerate(zip(cases, results)):
         ctx.evaluated()
         tags = {'kind': case['kind'], 'cls': info.get('cls') or case.get('cls')}
         for m in mism:
             clause = {'raised': 'Raises', 'route': 'ReplayRoute', 'kwargs': 'ReplayKwargsUntouched',
-                      'refusal': 'ReplayActRefused'}.get(
+                      'refusal': 'ReplayActRefused', 'container': 'ReplayContainer'}.get(
                 m['what'], 'ReplayState')
             ctx.violation(clause, case, tags=dict(tags, q=m.get('q')), detail=m)
         skipped += len(info.get('skipped_nonfinite', []))
+        for c in info.get('cov', []):
+            covered[c] = covered.get(c, 0) + 1
         if case['kind'] == 'spy':
             nontriv = bool(case['blocks']) or case['hasTS']
+        elif case['kind'] == 'cycle':
+            nontriv = True
         else:
             nontriv = bool(info.get('blocks')) or (info.get('n') or [0, 0, 0])[2] > 0 or not info.get('quarter', True)
         if nontriv and info:
@@ -754,15 +1117,23 @@ def run(ctx):
     ctx.coverage['events_skipped_nonfinite'] = skipped
     ctx.coverage['clause_exercise'] = dict(sorted(exercise.items()))
     if ctx.replay_case is None:
-        need = _needed()
+        need = _needed() + ['HessCycle | closed', 'HessCycle | net reaction']
+        ctx.coverage['input_classes'] = dict(sorted(covered.items()))
+        missing = [k for k in _needed_cov() if covered.get(k, 0) == 0]
+        # a case in which the library raised cannot report its classes: the Raises violations are the verdict
+        raised = any(v['clause'] == 'Raises' for v in ctx.violations)
+        if missing and not raised:
+            raise core.MachineryError('input classes of the quantifier never generated: %s' % missing)
         vac = [k for k in need if exercise.get(k, 0) < 5]
-        if vac:
+        if vac and not raised:
             raise core.MachineryError('vacuous clauses (never exercised non-trivially): %s' % vac)
     per_clause = {}
     for tid, idx, clause in fails:
         case = cases[tid]
         ev = results[tid][0][idx]
         tags = {'kind': case['kind'], 'cls': ev.get('cls'), 'q': ev.get('q'), 'ev': ev.get('ev')}
+        if case['kind'] == 'real':
+            tags['built'] = results[tid][2].get('construction', {}).get('how')
         if ev.get('ev') == 'refuse':
             tags['getters'] = ','.join(sorted({g.split('(')[0] for g, o in zip(ev['g'], ev['out']) if o == 'value'}))
         per_clause[clause] = per_clause.get(clause, 0) + 1
